@@ -24,11 +24,12 @@ type constEnv struct {
 	decl  map[string]ast.Expr // constant name -> defining expression
 	funcs map[string]*ast.FuncDecl
 	memo  map[string]int64
+	vars  map[string]*ast.ValueSpec // package-level variables
 }
 
 func loadConsts(dir string) (*constEnv, error) {
 	fset := token.NewFileSet()
-	env := &constEnv{decl: map[string]ast.Expr{}, funcs: map[string]*ast.FuncDecl{}, memo: map[string]int64{}}
+	env := &constEnv{decl: map[string]ast.Expr{}, funcs: map[string]*ast.FuncDecl{}, memo: map[string]int64{}, vars: map[string]*ast.ValueSpec{}}
 	files, _ := filepath.Glob(filepath.Join(dir, "*.go"))
 	for _, fn := range files {
 		if strings.HasSuffix(fn, "_test.go") {
@@ -41,6 +42,16 @@ func loadConsts(dir string) (*constEnv, error) {
 		for _, d := range f.Decls {
 			switch d := d.(type) {
 			case *ast.GenDecl:
+				if d.Tok == token.VAR {
+					for _, s := range d.Specs {
+						vs := s.(*ast.ValueSpec)
+						for _, n := range vs.Names {
+							if n.Name != "_" {
+								env.vars[n.Name] = vs
+							}
+						}
+					}
+				}
 				if d.Tok != token.CONST {
 					continue
 				}
@@ -260,24 +271,156 @@ func (e *constEnv) eqLiterals(fn string, min int64) (string, bool) {
 	return strings.Join(parts, ","), true
 }
 
-// census of the encoder functions of package packet: every function or method whose name says it
-// encodes (Encode*, *Marshal, marshal, marshalOptions, encodeName, SetPayload, AppendPayload,
-// AppendOptions), as "Recv.Name", sorted.  The model keeps the same list, each entry classified as
-// modelled by C03, modelled by another cluster, or not modelled: a new, removed or renamed encoder shows.
-func (e *constEnv) census() string {
-	var names []string
-	for n := range e.funcs {
-		base := n
-		if i := strings.LastIndex(n, "."); i >= 0 {
-			base = n[i+1:]
+// census of the encoder functions of package packet: every function or method whose name says it writes
+// packet bytes (Encode*, *Marshal, marshal*, encode*, SetPayload, AppendPayload, AppendOptions), as "Recv.Name",
+// sorted.  The model keeps the same list, each entry classified as modelled by C03 or by another cluster: a
+// new, removed or renamed encoder shows.  Exported functions are always listed.  An unexported one is listed
+// only when somebody other than a census function calls it (or nobody does); an unexported helper that is
+// called solely by census functions (e.g. one extracted from an encoder by a refactoring) inherits their
+// classification and is only counted (second result).
+func encoderName(n string) bool {
+	base := n
+	if i := strings.LastIndex(n, "."); i >= 0 {
+		base = n[i+1:]
+	}
+	return strings.HasPrefix(base, "Encode") || strings.HasSuffix(base, "Marshal") || strings.HasPrefix(base, "marshal") ||
+		strings.HasPrefix(base, "encode") || base == "SetPayload" || base == "AppendPayload" || base == "AppendOptions"
+}
+
+func baseName(n string) string {
+	if i := strings.LastIndex(n, "."); i >= 0 {
+		return n[i+1:]
+	}
+	return n
+}
+
+// callees by name: plain calls f(...) and method calls x.m(...) (the receiver type is not resolved: a method
+// name stands for every method of that name)
+func calleeNames(fd *ast.FuncDecl) map[string]bool {
+	out := map[string]bool{}
+	if fd.Body == nil {
+		return out
+	}
+	ast.Inspect(fd.Body, func(n ast.Node) bool {
+		if c, ok := n.(*ast.CallExpr); ok {
+			switch f := c.Fun.(type) {
+			case *ast.Ident:
+				out[f.Name] = true
+			case *ast.SelectorExpr:
+				out[f.Sel.Name] = true
+			}
 		}
-		if strings.HasPrefix(base, "Encode") || strings.HasSuffix(base, "Marshal") || base == "marshal" || base == "marshalOptions" ||
-			base == "encodeName" || base == "SetPayload" || base == "AppendPayload" || base == "AppendOptions" {
+		return true
+	})
+	return out
+}
+
+func (e *constEnv) census() (string, []string) {
+	var names, inherited []string
+	for n := range e.funcs {
+		if !encoderName(n) {
+			continue
+		}
+		base := baseName(n)
+		if ast.IsExported(base) {
+			names = append(names, n)
+			continue
+		}
+		callers, outside := 0, 0
+		for cn, fd := range e.funcs {
+			if cn == n {
+				continue
+			}
+			if calleeNames(fd)[base] {
+				callers++
+				if !encoderName(cn) {
+					outside++
+				}
+			}
+		}
+		if callers > 0 && outside == 0 {
+			inherited = append(inherited, n)
+		} else {
 			names = append(names, n)
 		}
 	}
 	sort.Strings(names)
-	return strings.Join(names, ",")
+	sort.Strings(inherited)
+	return strings.Join(names, ","), inherited
+}
+
+// package-level variables the encoders touch: for every census function (listed or inherited) and every
+// package function reachable from it by plain calls (and by method calls whose name is unique in the package),
+// the package-level variables its body mentions.  "Func:var+var;Func:var", sorted.  The model keeps the
+// expected list (today: none beyond read-only tables), so that new shared state under an encoder is a tie alarm.
+func (e *constEnv) globals() string {
+	byBase := map[string][]string{}
+	for n := range e.funcs {
+		byBase[baseName(n)] = append(byBase[baseName(n)], n)
+	}
+	seen := map[string]bool{}
+	var work []string
+	for n := range e.funcs {
+		if encoderName(n) {
+			seen[n] = true
+			work = append(work, n)
+		}
+	}
+	for len(work) > 0 {
+		n := work[len(work)-1]
+		work = work[:len(work)-1]
+		for c := range calleeNames(e.funcs[n]) {
+			if l := byBase[c]; len(l) == 1 && !seen[l[0]] {
+				seen[l[0]] = true
+				work = append(work, l[0])
+			}
+		}
+	}
+	var rows []string
+	for n := range seen {
+		fd := e.funcs[n]
+		if fd.Body == nil {
+			continue
+		}
+		used := map[string]bool{}
+		var visit func(ast.Node) bool
+		visit = func(x ast.Node) bool {
+			switch t := x.(type) {
+			case *ast.SelectorExpr:
+				ast.Inspect(t.X, visit)
+				return false
+			case *ast.KeyValueExpr:
+				ast.Inspect(t.Value, visit)
+				if _, isId := t.Key.(*ast.Ident); !isId {
+					ast.Inspect(t.Key, visit)
+				}
+				return false
+			case *ast.Ident:
+				vs, ok := e.vars[t.Name]
+				if !ok {
+					return true
+				}
+				if t.Obj == nil || t.Obj.Decl == vs {
+					used[t.Name] = true
+				}
+			}
+			return true
+		}
+		ast.Inspect(fd.Body, visit)
+		if len(used) > 0 {
+			var vs []string
+			for v := range used {
+				vs = append(vs, v)
+			}
+			sort.Strings(vs)
+			rows = append(rows, n+":"+strings.Join(vs, "+"))
+		}
+	}
+	sort.Strings(rows)
+	if len(rows) == 0 {
+		return "-"
+	}
+	return strings.Join(rows, ";")
 }
 
 func runConsts(r *lib.Run) {
@@ -298,7 +441,12 @@ func runConsts(r *lib.Run) {
 		r.Case("consts", []string{name}, val)
 	}
 	num := func(v int64, ok bool) (string, bool) { return strconv.FormatInt(v, 10), ok }
-	r.Case("census", []string{"encoders"}, env.census())
+	cen, inh := env.census()
+	r.Case("census", []string{"encoders"}, cen)
+	for _, n := range inh {
+		r.Stat("census.inherited."+n, 1)
+	}
+	r.Case("globals", []string{"encoders"}, env.globals())
 	// declared constants
 	for _, n := range []string{"EthMaxSize", "EthHeaderLen", "EthAddrLen", "EthType8021AD", "HeaderLen", "UDPHeaderLen",
 		"IP6HeaderLen", "ARPLen", "ARPOperationRequest", "ARPOperationReply", "ICMP4TypeEchoReply", "ICMP4TypeEchoRequest",
